@@ -62,13 +62,6 @@ pub(crate) fn run() -> Result<(), Error> {
         if changed { "changed" } else { "unchanged" }
     );
     f.set_generated();
-    // What we record here describes output that is not in place yet: the target file is
-    // replaced only when the script has ended and the redo that runs it records the build
-    // (which also records the new stamp).  Until then the old stamp must not vouch for the
-    // old file: otherwise a build that is killed after this point leaves a row that says
-    // "changed (or checked) in this run" next to the unchanged old file, and no later run
-    // ever rebuilds it, no matter which of its sources had changed.
-    f.clear_stamp();
     if changed {
         f.set_changed(ptx.state().env()); // update_stamp might skip this if mtime is identical
         f.set_checksum(csum);
@@ -76,6 +69,14 @@ pub(crate) fn run() -> Result<(), Error> {
         // unchanged
         f.set_checked(ptx.state().env());
     }
+    // What we record here describes output that is not in place yet: the target file is
+    // replaced only when the script has ended and the redo that runs it records the build.
+    // Until then the build stays marked as started and not finished: otherwise a build that
+    // is killed after this point leaves a row that says "changed (or checked) in this run"
+    // next to the unchanged old file, and no later run ever rebuilds it, no matter which
+    // of its sources had changed.  (The old stamp stays too, so that a file the user edits
+    // after such a kill is still recognised as theirs.)
+    f.set_started(ptx.state().env());
     f.save(&mut ptx)?;
     ptx.commit()?;
     Ok(())
